@@ -1,282 +1,166 @@
 """C05 - layer-rule verdicts follow the documented semantics, one unit per layer.
 
-  C05.R1  lowering: every LayerRule verb/access method delegates to its image under access->import, layers->modules; are_named lowers a
-          layer to all of its module filters, preserving whether each is a regex
-  C05.R2  lookups whose key ranges over all layers are total on a map built from the rule's subjects and objects only
-  C05.R3  the same-layer filter covers every judgement on concrete dependency lists
-  C05.R4  lenient grouping is keyed by the object-side module and satisfied by any realisation
-  C05.R5  layer lookup by whole dotted components (F-NAME site)
-  C05.R6  closures created in a loop bind the loop's variables at creation time (late-binding lint)
+  C05.R1  lowering (rules/c05_lowering.py): every LayerRule verb/access method delegates to its image under access->import,
+          layers->modules; layers_that binds the configured layer matcher to the architecture's layer mapping; are_named lowers
+          every named layer to *all* of its module filters, each with its own regex flag (or as filter objects of its own kind);
+          on the Rule side the flag selects ModuleNameRegexFilter vs ModuleNameFilter
+  C05.R2  matcher (rules/c05_matcher.py): the layer mapping handed to the detector is rebuilt for all layers; lookups into the regex
+          conversion map (built from the rule's subjects and objects only) are total; that map contains the conversions of both
+          sides on every path; nothing but the layer detector is built; the LayerMapping served by LayeredArchitecture.layer_mapping is
+          current (built per access, a live view, or a stored snapshot that every method assigning modules to a layer invalidates)
+  C05.R3  detector (rules/c05_detector.py + c05_shapes.py): reported 'other' dependencies passed the same-layer filter, which drops
+          same-layer pairs and nothing else; every "is there any other access" decision is made on filtered pairs
+  C05.R4  a requirement is judged per layer: missing dependencies are reported only when no pair of the (object) layer is realised;
+          explicit pairs are grouped by the layer of the object-side module
+  C05.R5  layer lookup (rules/c05_names.py): F-NAME sites reachable from LayerMapping.get_layer_for_module_name compare whole dotted
+          components; every ancestor-or-self of the name, the top-level one included, is tested (scan over all listed names, or a
+          walk over derived names that is unrolled abstractly on 1-3 component names: rules/c05_walk.py)
+  C05.R6  closures created in a loop / comprehension bind the loop's variables at creation time (late-binding lint)
+  C05.R7  regex layers (conversion *and* rebuilt layer mapping) are resolved against the evaluable being judged: per evaluation a
+          fresh matcher is built or the resolution runs unconditionally
+
+All rules anchor on public API (LayerRule / Rule fluent methods, RuleViolations fields via rules/tables.py, LayerMapping.
+get_layer_for_module_name / all_layers, ModuleNameConverter.convert, the filter and detector classes) and analyse *devirtualised
+inline views* (rules/c05_views.py) of the public entry points, so that extracting, inlining, renaming, merging or moving private
+helpers does not change what the rules see.  engine/mutants/c05_variants.py holds ~150 variants (behaviour-preserving
+refactorings incl. 14 written by independent agents, and breaking edits on all of those shapes) the rules are tested against.
 """
 
 from __future__ import annotations
 
 import ast
 
-from core.flow import Flow, Spec
-from core.guards import atom, conds_formula, f_not, implies, to_formula
-from core.loader import AnalysisError, FuncInfo, Repo, ancestors, calls_in, header, norm, own_nodes, parent
+from core.loader import FuncInfo, Repo, ancestors, header, norm, own_nodes, parent
 from core.report import Result
 
-from . import names
-from .c14 import add_sites
-from .common import conds, dotted, guard_formula, is_attr_call, loops_around, stmt_of, types_of, where
-from .tables import DETECTOR, LAYER_DETECTOR, MATCHER, RULE, Inliner, bucket_wiring, classify_helper, method_mode
+from .c05_detector import check_detector
+from .c05_lowering import check_are_named, check_delegation, check_filter_selection, check_layer_mapping_current, check_matcher_wiring
+from .c05_matcher import check_conversion_map_complete, check_layer_mapping_update, check_regex_resolution_per_evaluation
+from .c05_names import check_layer_lookup_names
+from .common import dotted, stmt_of, where
 
-LAYER_RULE = "pytestarch.query_language.layered_architecture_rule"
-EVAL_ARCH = "pytestarch.eval_structure.evaluable_architecture"
 
-LOWERING = {
-    "should": "should",
-    "should_only": "should_only",
-    "should_not": "should_not",
-    "access_layers_that": "import_modules_that",
-    "be_accessed_by_layers_that": "be_imported_by_modules_that",
-    "access_layers_except_layers_that": "import_modules_except_modules_that",
-    "be_accessed_by_layers_except_layers_that": "be_imported_by_modules_except_modules_that",
-    "access_any_layer": "import_anything",
-    "be_accessed_by_any_layer": "be_imported_by_anything",
-    "assert_applies": "assert_applies",
-}
+def _bound_params(c: ast.AST) -> set[str]:
+    args = c.args
+    return {a.arg for a in [*args.posonlyargs, *args.args, *args.kwonlyargs]} | ({args.vararg.arg} if args.vararg else set()) | ({args.kwarg.arg} if args.kwarg else set())
+
+
+def _free_reads(c: ast.AST, rebound: set[str]) -> list[str]:
+    bound = _bound_params(c)
+    body_nodes = list(ast.walk(c.body)) if isinstance(c, ast.Lambda) else [x for b in c.body for x in ast.walk(b)]
+    local_stores = {x.id for x in body_nodes if isinstance(x, ast.Name) and isinstance(x.ctx, ast.Store)}
+    # names bound by comprehensions inside the closure are local to it
+    for x in body_nodes:
+        if isinstance(x, ast.comprehension):
+            local_stores |= {y.id for y in ast.walk(x.target) if isinstance(y, ast.Name)}
+    return sorted({x.id for x in body_nodes if isinstance(x, ast.Name) and isinstance(x.ctx, ast.Load) and x.id in rebound and x.id not in bound and x.id not in local_stores})
+
+
+def _called_at_once(c: ast.AST, scope_body: list[ast.stmt] | None, after: list[ast.stmt]) -> bool:
+    """The closure is consumed before the loop variable changes: called directly, handed to sorted/min/max/any/all/sum, to a
+    map/filter that is consumed on the spot, or bound to a local that is only ever *called* inside the same iteration."""
+    p = parent(c)
+    if isinstance(p, ast.Call) and p.func is c:
+        return True
+    if isinstance(p, ast.Call) and c in p.args and dotted(p.func) in ("sorted", "min", "max", "any", "all", "sum", "next"):
+        return True
+    if isinstance(p, ast.keyword) and isinstance(parent(p), ast.Call):
+        call = parent(p)
+        if dotted(call.func) in ("sorted", "min", "max") or (isinstance(call.func, ast.Attribute) and call.func.attr == "sort"):
+            return True
+    if isinstance(p, ast.Call) and c in p.args and dotted(p.func) in ("map", "filter"):
+        gp = parent(p)
+        return (isinstance(gp, ast.Call) and dotted(gp.func) in ("list", "set", "tuple", "sorted", "any", "all", "sum", "dict", "frozenset", "next")) or isinstance(gp, (ast.For, ast.comprehension))
+    name = None
+    if isinstance(p, ast.Assign) and len(p.targets) == 1 and isinstance(p.targets[0], ast.Name) and p.value is c:
+        name = p.targets[0].id
+    elif isinstance(c, ast.FunctionDef):
+        name = c.name
+    if name is not None and scope_body is not None:
+        uses = [x for s in scope_body for x in ast.walk(s) if isinstance(x, ast.Name) and x.id == name and isinstance(x.ctx, ast.Load)]
+        later = [x for s in after for x in ast.walk(s) if isinstance(x, ast.Name) and x.id == name and isinstance(x.ctx, ast.Load)]
+        if uses and not later and all(isinstance(parent(u), ast.Call) and parent(u).func is u for u in uses):
+            return True
+    return False
 
 
 def late_binding_closures(repo: Repo) -> list[tuple[FuncInfo, ast.AST, ast.AST, list[str]]]:
-    """(function, loop, closure, names): closures defined in a loop body that read a variable the loop rebinds and that escape the
-    iteration (stored / appended / returned) instead of being called at once."""
+    """(function, loop, closure, names): closures defined in a loop body or a list/set/dict comprehension that read a variable the
+    loop rebinds and that escape the iteration (stored / appended / returned) instead of being called at once."""
     out = []
     for f in repo.all_functions():
         if isinstance(f.node, ast.Lambda):
             continue
+        body = f.node.body
         for lp in own_nodes(f.node):
-            if not isinstance(lp, (ast.For, ast.AsyncFor, ast.While)):
-                continue
-            rebound = {n.id for n in ast.walk(lp.target) if isinstance(n, ast.Name)} if not isinstance(lp, ast.While) else set()
-            for s in lp.body:
-                for n in ast.walk(s):
-                    if isinstance(n, ast.Name) and isinstance(n.ctx, ast.Store):
-                        rebound.add(n.id)
-            for s in lp.body:
-                for c in ast.walk(s):
-                    if not isinstance(c, (ast.Lambda, ast.FunctionDef)):
-                        continue
-                    args = c.args
-                    bound = {a.arg for a in [*args.posonlyargs, *args.args, *args.kwonlyargs]} | ({args.vararg.arg} if args.vararg else set()) | ({args.kwarg.arg} if args.kwarg else set())
-                    body_nodes = ast.walk(c.body) if isinstance(c, ast.Lambda) else [x for b in c.body for x in ast.walk(b)]
-                    local_stores = {x.id for x in body_nodes if isinstance(x, ast.Name) and isinstance(x.ctx, ast.Store)}
-                    body_nodes = ast.walk(c.body) if isinstance(c, ast.Lambda) else [x for b in c.body for x in ast.walk(b)]
-                    free = sorted({x.id for x in body_nodes if isinstance(x, ast.Name) and isinstance(x.ctx, ast.Load) and x.id in rebound and x.id not in bound and x.id not in local_stores})
-                    if not free:
-                        continue
-                    # called immediately (directly, or as the function argument of map/filter/sorted/min/max/any/all consumed at once)?
-                    p = parent(c)
-                    immediate = isinstance(p, ast.Call) and p.func is c
-                    if isinstance(p, ast.Call) and c in p.args and dotted(p.func) in ("sorted", "min", "max", "any", "all", "sum"):
-                        immediate = True
-                    if isinstance(p, ast.keyword) and isinstance(parent(p), ast.Call) and dotted(parent(p).func) in ("sorted", "min", "max") or (isinstance(p, ast.keyword) and isinstance(parent(p), ast.Call) and isinstance(parent(p).func, ast.Attribute) and parent(p).func.attr == "sort"):
-                        immediate = True
-                    if isinstance(p, ast.Call) and c in p.args and dotted(p.func) in ("map", "filter"):
-                        gp = parent(p)
-                        immediate = isinstance(gp, ast.Call) and dotted(gp.func) in ("list", "set", "tuple", "sorted", "any", "all", "sum", "dict", "frozenset") or isinstance(gp, (ast.For, ast.comprehension))
-                    if not immediate:
-                        out.append((f, lp, c, free))
+            if isinstance(lp, (ast.For, ast.AsyncFor, ast.While)):
+                rebound = {n.id for n in ast.walk(lp.target) if isinstance(n, ast.Name)} if not isinstance(lp, ast.While) else set()
+                for s in lp.body:
+                    for n in ast.walk(s):
+                        if isinstance(n, ast.Name) and isinstance(n.ctx, ast.Store):
+                            rebound.add(n.id)
+                # statements after the loop (in the enclosing block chain)
+                after: list[ast.stmt] = []
+                node: ast.AST = lp
+                for a in ancestors(lp):
+                    for fld in ("body", "orelse", "finalbody"):
+                        blk = getattr(a, fld, None)
+                        if isinstance(blk, list) and node in blk:
+                            after += blk[blk.index(node) + 1:]
+                    node = a
+                    if a is f.node:
+                        break
+                for s in lp.body:
+                    for c in ast.walk(s):
+                        if not isinstance(c, (ast.Lambda, ast.FunctionDef)):
+                            continue
+                        free = _free_reads(c, rebound)
+                        if free and not _called_at_once(c, lp.body, after):
+                            out.append((f, lp, c, free))
+            elif isinstance(lp, (ast.ListComp, ast.SetComp, ast.DictComp)):
+                rebound = {n.id for g in lp.generators for n in ast.walk(g.target) if isinstance(n, ast.Name)}
+                elts = [lp.key, lp.value] if isinstance(lp, ast.DictComp) else [lp.elt]
+                for e in elts:
+                    for c in ast.walk(e):
+                        if isinstance(c, ast.Lambda):
+                            free = _free_reads(c, rebound)
+                            if free and not _called_at_once(c, None, []):
+                                out.append((f, lp, c, free))
     return out
 
 
 def run(repo: Repo) -> Result:
     res = Result("C05")
     res.explanation = (
-        "Decides the layer-rule mechanism structurally: (R1) each LayerRule method delegates to the documented Rule method and are_named lowers "
-        "a layer to all its module filters with their own regex flag; (R2) lookups keyed by *all* layers are total on the regex conversion map "
-        "(built from the rule's subjects/objects only); (R3) every judgement on concrete 'other' dependencies is made on the same-layer-filtered "
-        "set; (R4) explicit pairs are grouped by the layer of the object-side module and a layer is satisfied by any realisation; (R5) the layer "
-        "of a module is found by whole dotted components; (R6) no closure created in a loop reads a loop variable late."
+        "Decides the layer-rule mechanism structurally, on devirtualised inline views of the public entry points: (R1) each LayerRule method "
+        "delegates to the documented Rule method, layers_that binds the layer matcher to the layer mapping, are_named lowers every named layer "
+        "to all its module filters with their own regex flag, which selects the filter class; (R2) the layer mapping given to the detector is "
+        "rebuilt for all layers, lookups into the regex conversion map are total, the map covers both sides of the rule and only the layer "
+        "detector is built; (R3) reported 'other' dependencies and every decision on them use the same-layer-filtered set, and the filter "
+        "drops nothing else; (R4) explicit pairs are grouped by the layer of the object-side module and a layer is satisfied by any "
+        "realisation; (R5) the layer of a module is found by whole dotted components over all its ancestors; (R6) no closure created in a "
+        "loop reads a loop variable late; (R7) regex layers are resolved against the evaluable being judged."
     )
-    res.not_decided = "verdicts over all partitions of modules into layers (needs the values of the graph searches)."
-    res.trusted_base = ["C01 (module-rule dispatch the layer rule is lowered to)", "engine flow/guards"]
-    T = types_of(repo)
-    lr = repo.cls(LAYER_RULE, "LayerRule")
-    rule = repo.cls(RULE, "Rule")
+    res.not_decided = "verdicts over all partitions of modules into layers (needs the values of the graph searches); that the module filter built from a pair carries the pair's own identifier."
+    res.trusted_base = ["C01 (module-rule dispatch the layer rule is lowered to)", "rules/tables.py bucket wiring", "engine inline views / guards"]
     # ---- R1
-    for name, want in LOWERING.items():
-        m = lr.methods.get(name)
-        if m is None:
-            res.add("C05.R1", f"{lr.module.relpath}::LayerRule.{name}::delegation", False, f"LayerRule.{name} no longer exists", kind="structural")
-            continue
-        dels = [c for c in calls_in(m.node) if isinstance(c.func, ast.Attribute) and dotted(c.func.value) == "self._rule"]
-        ok = len(dels) == 1 and dels[0].func.attr == want and repo.lookup_method(rule, want) is not None
-        if ok and name != "assert_applies":
-            st = stmt_of(dels[0])
-            ok = isinstance(st, ast.Assign) and dotted(st.targets[0]) == "self._rule" and not dels[0].args
-        if ok and name == "assert_applies":
-            ok = len(dels[0].args) == 1 and dotted(dels[0].args[0]) == m.param_names[1]
-        res.add("C05.R1", f"{m.relpath}::{m.qualname}::delegation", ok, f"{name} -> Rule.{want}" if ok else f"LayerRule.{name} delegates to {[c.func.attr for c in dels]}: the documented lowering is Rule.{want}", where(m, m.node), kind="structural")
-    an = lr.methods.get("are_named")
-    gm = lr.methods.get("_get_all_modules_in_layers")
-    if an is None or gm is None:
-        raise AnalysisError("LayerRule.are_named / _get_all_modules_in_layers not found")
-    comp = [n for n in own_nodes(gm.node) if isinstance(n, (ast.ListComp, ast.For))]
-    ok = False
-    detail = "layer -> modules lowering not recognised"
-    for c in [n for n in own_nodes(gm.node) if isinstance(n, ast.ListComp)]:
-        if len(c.generators) == 2 and not any(g.ifs for g in c.generators) and dotted(c.generators[0].iter) == gm.param_names[1]:
-            inner = c.generators[1]
-            mv = dotted(inner.target)
-            elts = c.elt.elts if isinstance(c.elt, ast.Tuple) else []
-            if isinstance(inner.iter, ast.Subscript) and dotted(inner.iter.value) == "self._architecture" and dotted(inner.iter.slice) == dotted(c.generators[0].target) and [norm(e) for e in elts] == [f"{mv}.identifier", f"{mv}.identifier_is_regex"]:
-                ok, detail = True, "every module filter of every named layer is lowered as (identifier, is_regex)"
-    res.add("C05.R1", f"{gm.relpath}::{gm.qualname}::all modules of the layer", ok, detail if ok else "a layer is not lowered to all of its module filters with their own regex flag", where(gm, gm.node), kind="structural")
-    addc = [c for c in calls_in(an.node) if is_attr_call(c, "_add_modules")]
-    getc = [c for c in calls_in(an.node) if is_attr_call(c, gm.name)]
-    ok = len(addc) == 1 and len(getc) == 1 and dotted(addc[0].args[0]) == dotted(stmt_of(getc[0]).targets[0]) if addc and getc and isinstance(stmt_of(getc[0]), ast.Assign) else False
-    res.add("C05.R1", f"{an.relpath}::{an.qualname}::modules handed to the rule", ok, "the lowered module filters are appended to the wrapped rule" if ok else "the lowered module filters do not reach the wrapped rule unchanged", where(an, an.node), kind="flow")
-    am = rule.methods.get("_add_modules")
-    if am is None:
-        raise AnalysisError("Rule._add_modules not found")
-    lam = [n for n in ast.walk(am.node) if isinstance(n, ast.Lambda)]
-    ok = False
-    for l_ in lam:
-        b = l_.body
-        if isinstance(b, ast.IfExp):
-            t = norm(b.test)
-            plain, regex = (b.body, b.orelse) if t.startswith("not ") else (b.orelse, b.body)
-            if "ModuleNameFilter" in norm(plain) and "ModuleNameRegexFilter" in norm(regex) and "ModuleNameRegexFilter" not in norm(plain):
-                ok = True
-    res.add("C05.R1", f"{am.relpath}::{am.qualname}::regex flag selects the filter class", ok, "regex modules become regex filters, named modules name filters" if ok else "the regex flag does not select ModuleNameRegexFilter vs ModuleNameFilter", where(am, am.node), kind="structural")
+    check_delegation(repo, res)
+    check_matcher_wiring(repo, res)
+    check_layer_mapping_current(repo, res)
+    receiver = check_are_named(repo, res)
+    check_filter_selection(repo, res, receiver)
     # ---- R6
     lbs = late_binding_closures(repo)
     for f, lp, c, free in lbs:
-        res.add("C05.R6", repo.key(f, stmt_of(c)) + f" [closure over {', '.join(free)}]", False, f"a closure created inside `{header(lp)}` reads `{', '.join(free)}` when it is *called*, i.e. after the loop has finished: every closure sees the value of the last iteration (bind it with a default argument or functools.partial)", where(f, c), kind="flow")
-    nloops = sum(1 for f in repo.all_functions() if not isinstance(f.node, ast.Lambda) for n in own_nodes(f.node) if isinstance(n, (ast.For, ast.While)) and any(isinstance(x, (ast.Lambda, ast.FunctionDef)) for x in ast.walk(n)))
-    res.add("C05.R6", "src::closures in loops bind early", not lbs, f"{nloops} loop(s) create closures; none reads a loop variable late", kind="flow")
-    # ---- R2
-    lm = repo.cls(MATCHER, "LayerRuleMatcher")
-    upd = lm.methods.get("_update_layer_mapping")
-    rep = lm.methods.get("_replace_regex_specified_modules_with_actual_modules")
-    if upd is None or rep is None:
-        raise AnalysisError("LayerRuleMatcher._update_layer_mapping / _replace_regex_specified_modules_with_actual_modules not found")
-    all_layers = any(isinstance(n, ast.Attribute) and n.attr == "all_layers" for n in ast.walk(upd.node))
-    res.add("C05.R2", f"{upd.relpath}::{upd.qualname}::all layers updated", all_layers, "the updated mapping covers every layer of the architecture" if all_layers else "the updated layer mapping no longer covers all layers", where(upd, upd.node), kind="structural")
-    mp = rep.param_names[3] if len(rep.param_names) > 3 else None
-    n = 0
-    for node in own_nodes(rep.node):
-        if isinstance(node, ast.Subscript) and dotted(node.value) == mp and isinstance(node.ctx, ast.Load):
-            n += 1
-            key = norm(node.slice)
-            g = guard_formula(rep, node)
-            ok = implies(g, atom(f"{key} in {mp}"))
-            res.add("C05.R2", repo.key(rep, stmt_of(node)) + " [lookup]", ok, "raising subscript guarded by a membership test" if ok else f"`{norm(node)}` is a raising lookup, but `{mp}` only contains the regexes of the rule's subjects and objects while the key ranges over the filters of *all* layers: a regex-defined layer the rule does not mention raises KeyError", where(rep, node), kind="dominance")
-        if isinstance(node, ast.Call) and is_attr_call(node, "get") and dotted(node.func.value) == mp:
-            n += 1
-            ok = len(node.args) == 2
-            res.add("C05.R2", repo.key(rep, stmt_of(node)) + " [lookup]", ok, "total lookup with a default" if ok else f"`{norm(node)}` yields None for layers the rule does not mention", where(rep, node), kind="structural")
-    res.floor("C05.R2", 1, n)
-    # ---- R3
-    inl = Inliner(repo)
-    grv, buckets = bucket_wiring(repo, inl)
-    ld = repo.cls(LAYER_DETECTOR, "LayerRuleViolationDetector")
-    san = ld.methods.get("_get_realised_dependencies")
-    if san is None:
-        raise AnalysisError("LayerRuleViolationDetector._get_realised_dependencies (same-layer filter) not found")
-    # the filter keeps a pair only if the layers of its two ends differ
-    cmp_ = [c for c in own_nodes(san.node) if isinstance(c, ast.Compare) and isinstance(c.ops[0], (ast.NotEq, ast.Eq))]
-    adds = [c for c in calls_in(san.node) if isinstance(c.func, ast.Attribute) and c.func.attr in ("add", "append")]
-    lay = [c for c in calls_in(san.node) if is_attr_call(c, "get_layer_for_module_name")]
-    ok = len(lay) >= 2 and bool(adds) and any(len(conds(san, a)) > 0 for a in adds) and bool(cmp_)
-    if ok:
-        # the add must be under "layers differ"
-        g = guard_formula(san, adds[0])
-        sides = sorted([norm(cmp_[0].left), norm(cmp_[0].comparators[0])])
-        ok = implies(g, f_not(atom(f"{sides[0]} == {sides[1]}")))
-        idx = sorted(norm(c.args[0]) for c in lay)
-        ok = ok and any("[0]" in i for i in idx) and any("[1]" in i for i in idx)
-    res.add("C05.R3", f"{san.relpath}::{san.qualname}::same-layer filter", ok, "pairs whose two ends lie in the same layer are dropped" if ok else "the same-layer filter no longer drops exactly the pairs whose two ends are in the same layer", where(san, san.node), kind="dominance")
-    sup = [c for c in calls_in(san.node) if isinstance(c.func, ast.Attribute) and isinstance(c.func.value, ast.Call) and dotted(c.func.value.func) == "super"]
-    res.add("C05.R3", f"{san.relpath}::{san.qualname}::filters all realised pairs", len(sup) == 1 and not conds(san, sup[0]), "the filter starts from all realised pairs" if sup else "the same-layer filter does not start from all realised pairs", where(san, san.node), kind="structural")
-
-    def transfer(f: FuncInfo, call: ast.Call, names_, args, recv, kwargs):
-        if isinstance(call.func, ast.Attribute) and call.func.attr == san.name:
-            return {"CLEAN"}
-        return None
-
-    k = 0
-    for b in buckets:
-        if b.source != "other":
-            continue
-        m = repo.lookup_method(ld, b.method)
-        data = m.param_names[2]
-        flow = Flow(repo, T, Spec(transfer=transfer, param_seeds={(m.fq, data): {"RAW"}}, objects_carry=False, scope=lambda f: f.cls is ld))
-        # judgements: tests / any / len on RAW data anywhere in the methods reachable from m inside the layer detector
-        seen = [m]
-        work = [m]
-        while work:
-            h = work.pop()
-            for c in calls_in(h.node):
-                if isinstance(c.func, ast.Attribute) and dotted(c.func.value) == "self":
-                    t = repo.lookup_method(ld, c.func.attr)
-                    if t is not None and t.cls is ld and t not in seen and t is not san:
-                        seen.append(t)
-                        work.append(t)
-        for h in seen:
-            for node in own_nodes(h.node):
-                judged = None
-                if isinstance(node, ast.Call) and isinstance(node.func, ast.Name) and node.func.id == "len" and node.args and "RAW" in flow.tags(node.args[0]):
-                    judged = node
-                elif isinstance(node, ast.If) and "RAW" in flow.tags(node.test) and not (isinstance(node.test, ast.BoolOp) or isinstance(node.test, ast.Compare) and isinstance(node.test.ops[0], (ast.Is, ast.IsNot))):
-                    if not (isinstance(node.test, ast.Compare) or (isinstance(node.test, ast.UnaryOp) and isinstance(node.test.operand, ast.Name) and node.test.operand.id in h.param_names[1:2])):
-                        judged = node.test
-                if judged is None:
-                    continue
-                k += 1
-                res.add("C05.R3", repo.key(h, stmt_of(judged)) + f" [{b.field}]", False, f"`{norm(judged, 70)}` judges the un-filtered 'other' dependencies: an import between two modules of the subject layer counts as access to something else", where(h, judged), kind="flow")
-        # positive: the emptiness decision of the absent buckets is made on the filtered data
-        mode, gran = classify_helper(repo, T, ld, repo.lookup_method(ld, _helper_name(m)))
-        if mode == "absent":
-            h = repo.lookup_method(ld, _helper_name(m))
-            tests = [n_ for n_ in own_nodes(h.node) if isinstance(n_, ast.If) and "CLEAN" in flow.tags(n_.test)]
-            k += 1
-            res.add("C05.R3", f"{h.relpath}::{h.qualname}::{b.field} judged on filtered data", bool(tests), "the 'is there any other access' decision is made on the same-layer-filtered dependencies" if tests else "no decision on the same-layer-filtered dependencies found for this bucket", where(h, h.node), kind="flow")
-            k += 1
-            res.add("C05.R4", f"{h.relpath}::{h.qualname}::{b.field} lenient", gran == "joint", "one realised access by any module of the layer satisfies the requirement" if gran == "joint" else "the layer requirement is judged per module instead of per layer", where(h, h.node), kind="structural")
-    res.floor("C05.R3", 4, k)
-    # ---- R4: explicit absent buckets
-    for b in buckets:
-        if b.source != "explicit":
-            continue
-        mode, gran, helper = method_mode(repo, T, ld, b.method)
-        if mode == "absent":
-            res.add("C05.R4", f"{helper.relpath}::{helper.qualname}::{b.field} lenient", gran == "joint", "a layer is satisfied by any realised import into it" if gran == "joint" else "explicit layer requirements are judged per module pair instead of per layer", where(helper, helper.node), kind="structural")
-    rel = ld.methods.get("_get_module_relevant_for_layer")
-    if rel is None:
-        raise AnalysisError("LayerRuleViolationDetector._get_module_relevant_for_layer not found")
-    rets = [s for s in own_nodes(rel.node) if isinstance(s, ast.Return)]
-    ok = len(rets) == 2
-    if ok:
-        def subst(x: ast.expr):
-            if isinstance(x, ast.Attribute) and x.attr == "rule_specified_with_importer_as_rule_subject":
-                return atom("importer_is_subject")
-            if isinstance(x, ast.Attribute) and x.attr == "rule_specified_with_importer_as_rule_object":
-                return f_not(atom("importer_is_subject"))
-            return None
-
-        for r in rets:
-            idx = r.value.slice.value if isinstance(r.value, ast.Subscript) and isinstance(r.value.slice, ast.Constant) else None
-            f_ = conds_formula(conds(rel, r), subst)
-            if idx == 1:
-                ok = ok and implies(f_, atom("importer_is_subject"))
-            elif idx == 0:
-                ok = ok and implies(f_, f_not(atom("importer_is_subject")))
-            else:
-                ok = False
-    res.add("C05.R4", f"{rel.relpath}::{rel.qualname}::object-side module", ok, "pairs are grouped by the layer of the object-side module (importee for access, importer for be-accessed-by)" if ok else "explicit pairs are not grouped by the layer of the object-side module", where(rel, rel.node), kind="decision-table")
+        res.add("C05.R6", repo.key(f, stmt_of(c)) + f" [closure over {', '.join(free)}]", False, f"a closure created inside `{header(lp) if isinstance(lp, ast.stmt) else norm(lp, 80)}` reads `{', '.join(free)}` when it is *called*, i.e. after the loop has finished: every closure sees the value of the last iteration (bind it with a default argument or functools.partial)", where(f, c), kind="flow")
+    nloops = sum(1 for f in repo.all_functions() if not isinstance(f.node, ast.Lambda) for n in own_nodes(f.node) if isinstance(n, (ast.For, ast.While, ast.ListComp, ast.SetComp, ast.DictComp)) and any(isinstance(x, (ast.Lambda, ast.FunctionDef)) for x in ast.walk(n)))
+    res.add("C05.R6", "src::closures in loops bind early", not lbs, f"{nloops} loop(s) / comprehension(s) create closures; none reads a loop variable late", kind="flow")
+    # ---- R2, R7
+    check_layer_mapping_update(repo, res)
+    check_conversion_map_complete(repo, res)
+    check_regex_resolution_per_evaluation(repo, res)
+    # ---- R3, R4
+    check_detector(repo, res)
     # ---- R5
-    sites = [s for s in names.scan(repo) if s.fi.cls is not None and s.fi.cls.name == "LayerMapping"]
-    kk = add_sites(repo, res, "C05.R5", sites)
-    res.floor("C05.R5", 1, kk)
+    check_layer_lookup_names(repo, res)
     return res
-
-
-def _helper_name(m: FuncInfo) -> str:
-    rets = [s for s in own_nodes(m.node) if isinstance(s, ast.Return) and isinstance(s.value, ast.Call) and isinstance(s.value.func, ast.Attribute) and dotted(s.value.func.value) == "self"]
-    if len(rets) != 1:
-        raise AnalysisError(f"{m.fq}: helper call not found")
-    return rets[0].value.func.attr
